@@ -28,7 +28,7 @@ type c06Row struct {
 	ErrNames []string `json:"err_names"`
 }
 
-var stimulusName = []string{"absent", "valid", "wrong-type", "overflow", "bad-date", "bad-uuid", "malformed-json", "wrong-prefix", "duplicated-header", "empty", "bad-escape", "valid-percent-plus"}
+var stimulusName = []string{"absent", "valid", "wrong-type", "overflow", "bad-date", "bad-uuid", "malformed-json", "wrong-prefix", "duplicated-header", "empty", "bad-escape", "valid-percent-plus", "json-trailing-data"}
 
 func c06Shapes() []PShape {
 	var out []PShape
@@ -107,6 +107,8 @@ func (s PShape) stimuli(ctx *Ctx) (map[int]J, error) {
 	case "json":
 		out[1] = s.rawRequest([]string{esc(`{"a":"x","b":"y"}`)})
 		out[6] = s.rawRequest([]string{esc(`{"a":`)})
+		// a complete JSON value followed by more data is not a JSON value
+		out[12] = s.rawRequest([]string{esc(`{"a":"x","b":"y"}}`)})
 		if s.Loc == "header" {
 			out[8] = s.rawRequest([]string{`{"a":"x","b":"y"}`, `{"a":"x","b":"y"}`})
 		}
@@ -293,8 +295,13 @@ func genC06(ctx *Ctx) error {
 }
 
 func runC06(ctx *Ctx) error {
-	ctx.Res.Rule = "exhaustive table: framework(7) x location(4) x {styled int32/bool/date/uuid/int-array/string, label and matrix arrays in the path, JSON content, pass-through} x required x applicable stimulus {absent, valid, valid with '%' and '+' (header, cookie), wrong type, overflow, bad date, bad uuid, malformed JSON, wrong prefix, duplicated header, empty} x {default error path, configured error handler}; one request per cell; plus every subset of omitted parameters on a 5-parameter operation; CORR of the runtime model (value classes); CORR of the integer layer: boundary and seeded texts (signs, leading zeros, 32/64-bit bounds and their neighbours, junk, non-ASCII digits) through strconv.ParseInt and through the runtime binder into int32/int64 vs IntParse.parseInt; CORR of the date layer: fixed and seeded texts (leap days, month/day bounds, short and long fields, other separators, junk) through time.Parse and the runtime binder into openapi_types.Date vs DateParse.parse; the same for booleans (every letter-case spelling) and UUIDs (canonical, urn, braces, 32 digits, damaged texts) vs IntParse.parseBool / UuidParse.parse; non-trivial = every cell"
+	ctx.Res.Rule = "exhaustive table: framework(7) x location(4) x {styled int32/bool/date/uuid/int-array/string, label and matrix arrays in the path, JSON content, pass-through} x required x applicable stimulus {absent, valid, valid with '%' and '+' (header, cookie), wrong type, overflow, bad date, bad uuid, malformed JSON, a JSON value followed by more data, wrong prefix, duplicated header, empty} x {default error path, configured error handler}; one request per cell; plus every subset of omitted parameters on a 5-parameter operation; CORR of the runtime model (value classes); CORR of the integer layer: boundary and seeded texts (signs, leading zeros, 32/64-bit bounds and their neighbours, junk, non-ASCII digits) through strconv.ParseInt and through the runtime binder into int32/int64 vs IntParse.parseInt; CORR of the date layer: fixed and seeded texts (leap days, month/day bounds, short and long fields, other separators, junk) through time.Parse and the runtime binder into openapi_types.Date vs DateParse.parse; the same for booleans (every letter-case spelling) and UUIDs (canonical, urn, braces, 32 digits, damaged texts) vs IntParse.parseBool / UuidParse.parse; non-trivial = every cell"
 	if err := corrCodec(ctx, "C06"); err != nil {
+		return err
+	}
+	// the declarations every generated signature is built from: CombineOperationParameters vs Model/Combine.lean,
+	// also over the operations of one path item in turn (nothing carries over, the arguments are not modified)
+	if err := c03CombineCorr(ctx, ctx.N(600, 6000)); err != nil {
 		return err
 	}
 	if err := c06IntCorr(ctx, ctx.N(1500, 20000)); err != nil {
